@@ -7,6 +7,7 @@ CONSTANTS
   MaxFaults = 2
   MaxEnv = 3
   ForeignAt = "none"
+  RenderFails = TRUE
   FailKinds = {}
 VIEW view
 ACTION_CONSTRAINT Emit
